@@ -448,42 +448,59 @@ inductive WalkEnd where
   | closed | infiniteLoop | unreachable
 deriving DecidableEq, Repr
 
-/-- `edge_inters.iter().enumerate().find(|(_, inter)| inter.id == inter_id)` -/
-def findPos (l : List (IPoint K)) (id : Nat) : Option (Nat × IPoint K) :=
-  let rec go : Nat → List (IPoint K) → Option (Nat × IPoint K)
-    | _, [] => none
-    | n, ip :: rest => if ip.id = id then some (n, ip) else go (n + 1) rest
-  go 0 l
+/-- `edge_inters.iter().enumerate().find(|(_, inter)| inter.id == inter_id)`, positions counted from `n` -/
+def findPosFrom (id : Nat) : Nat → List (IPoint K) → Option (Nat × IPoint K)
+  | _, [] => none
+  | n, ip :: rest => if ip.id = id then some (n, ip) else findPosFrom id (n + 1) rest
+
+def findPos (l : List (IPoint K)) (id : Nat) : Option (Nat × IPoint K) := findPosFrom id 0 l
+
+/-- number of vertices of polygon `p` (`polys[p].len()`) -/
+@[inline] def plen (len1 len2 p : Nat) : Nat := if p = 0 then len1 else len2
+
+/-- one iteration of the traversal loop: `inl` = continue with the new state, `inr` = the loop is left -/
+def walkStep (I : List (IPoint K)) (len1 len2 : Nat) (st : Walk K) : Sum (Walk K) (Walk K × WalkEnd) :=
+  let edgeInters := onEdge I st.poly st.edge
+  match st.status with
+  | .onInter id =>
+    match findPos edgeInters id with
+    | none => .inr (st, .unreachable)
+    | some (pos, cur) =>
+      if st.visited.contains cur.id then
+        -- We already saw this intersection: we looped back to the start of the intersection polygon.
+        .inr ({ st with trace := st.trace ++ [Emit.fin] }, .closed)
+      else
+        let tr := st.trace ++ [Emit.inter cur]
+        let vis := cur.id :: st.visited
+        match edgeInters[pos + 1]? with
+        | some next =>
+          -- move forward to the next intersection point and move on to traversing the other polygon
+          let p' := (st.poly + 1) % 2
+          .inl { poly := p', edge := next.edge p', status := .onInter next.id, visited := vis, trace := tr }
+        | none =>
+          -- this was the last intersection, move to the next vertex on the same polygon
+          .inl { poly := st.poly, edge := (st.edge + 1) % plen len1 len2 st.poly, status := .onVertex,
+                 visited := vis, trace := tr }
+  | .onVertex =>
+    let tr := st.trace ++ [Emit.vtx st.poly st.edge]
+    match edgeInters.head? with
+    | some first =>
+      -- jump on the first intersection and move on to the other polygon
+      let p' := (st.poly + 1) % 2
+      .inl { poly := p', edge := first.edge p', status := .onInter first.id, visited := st.visited, trace := tr }
+    | none =>
+      -- move forward to the next vertex/edge on the same polygon
+      .inl { poly := st.poly, edge := (st.edge + 1) % plen len1 len2 st.poly, status := .onVertex,
+             visited := st.visited, trace := tr }
 
 /-- the traversal loop.  `fuel` = number of iterations still allowed: the code errors when `loop_id > len1 * len2`, i.e.
 it runs at most `len1 * len2 + 1` iterations. -/
 def walk (I : List (IPoint K)) (len1 len2 : Nat) : Nat → Walk K → Walk K × WalkEnd
   | 0, st => (st, .infiniteLoop)
   | fuel + 1, st =>
-    let edgeInters := onEdge I st.poly st.edge
-    match st.status with
-    | .onInter id =>
-      match findPos edgeInters id with
-      | none => (st, .unreachable)
-      | some (pos, cur) =>
-        if st.visited.contains cur.id then ({ st with trace := st.trace ++ [Emit.fin] }, .closed)
-        else
-          let st := { st with trace := st.trace ++ [Emit.inter cur], visited := cur.id :: st.visited }
-          match edgeInters[pos + 1]? with
-          | some next =>
-            let p' := (st.poly + 1) % 2
-            walk I len1 len2 fuel { st with poly := p', edge := next.edge p', status := .onInter next.id }
-          | none =>
-            walk I len1 len2 fuel
-              { st with edge := (st.edge + 1) % (if st.poly = 0 then len1 else len2), status := .onVertex }
-    | .onVertex =>
-      let st := { st with trace := st.trace ++ [Emit.vtx st.poly st.edge] }
-      match edgeInters.head? with
-      | some first =>
-        let p' := (st.poly + 1) % 2
-        walk I len1 len2 fuel { st with poly := p', edge := first.edge p', status := .onInter first.id }
-      | none =>
-        walk I len1 len2 fuel { st with edge := (st.edge + 1) % (if st.poly = 0 then len1 else len2) }
+    match walkStep I len1 len2 st with
+    | .inl st' => walk I len1 len2 fuel st'
+    | .inr r => r
 
 /-- `poly_to_traverse` at the start of a component: the polygon whose edge heads to the left of the other edge -/
 def startPoly (poly1 poly2 : Array (V2 K)) (eps : K) (ip : IPoint K) : Nat :=
@@ -550,17 +567,17 @@ def polygonsIntersectionOrd (order : List Nat) (poly1 poly2 : Array (V2 K)) : PI
 def polygonsIntersection (poly1 poly2 : Array (V2 K)) : PIResult K :=
   polygonsIntersectionOrd (List.range poly1.size) poly1 poly2
 
-/-- split the emission stream at the `fin` markers (the closure of `polygons_intersection_points`; an empty current
-polygon is not pushed) -/
-def splitComponents (poly1 poly2 : Array (V2 K)) (tr : List (Emit K)) : List (List (V2 K)) :=
-  let r := tr.foldl (fun (acc : List (List (V2 K)) × List (V2 K)) e =>
-    match e with
-    | .inter ip => (acc.1, acc.2 ++ [ip.loc1.toPoint poly1])
-    | .vtx p v => (acc.1, acc.2 ++ [ppt (if p = 0 then poly1 else poly2) v])
-    | .fin => if acc.2.isEmpty then acc else (acc.1 ++ [acc.2], [])) ([], [])
-  r.1
+/-- the closure of `polygons_intersection_points`: `(result, curr_poly)` after one more call -/
+def splitStep (poly1 poly2 : Array (V2 K)) (acc : List (List (V2 K)) × List (V2 K)) : Emit K → List (List (V2 K)) × List (V2 K)
+  | .inter ip => (acc.1, acc.2 ++ [ip.loc1.toPoint poly1])
+  | .vtx p v => (acc.1, acc.2 ++ [ppt (if p = 0 then poly1 else poly2) v])
+  | .fin => if acc.2.isEmpty then acc else (acc.1 ++ [acc.2], [])
 
-/-- `polygons_intersection_points(poly1, poly2)`: `none` = `Err(InfiniteLoop)` -/
+/-- split the emission stream at the `fin` markers (an empty current polygon is not pushed) -/
+def splitComponents (poly1 poly2 : Array (V2 K)) (tr : List (Emit K)) : List (List (V2 K)) :=
+  (tr.foldl (splitStep poly1 poly2) ([], [])).1
+
+/-- `polygons_intersection_points(poly1, poly2)`: status `err` = `Err(InfiniteLoop)` -/
 def polygonsIntersectionPoints (poly1 poly2 : Array (V2 K)) : PIStatus × List (List (V2 K)) :=
   let r := polygonsIntersection poly1 poly2
   (r.status, if r.status = .ok then splitComponents poly1 poly2 r.trace else [])
